@@ -23,7 +23,8 @@ BATCH_SIZE = {'quick': 4, 'thorough': 12}
 REQUIRED_COUNTERS = ['parents_checked', 'fallback_parents',
                      'e2e_node_events_checked', 'expected_errors_seen',
                      'e2e_queries_with_marker_interior_shuffled',
-                     'e2e_votes_recomputed_by_name']
+                     'e2e_votes_recomputed_by_name',
+                     'e2e_queries_with_all_markers_beyond_column_255']
 RULE = ('layer 1: generated (taxonomy, marker table, query gene set, '
         'min_markers, flatten / dropped level) fed to the real '
         'create_marker_cache_from_specified_markers, cache file read back; '
@@ -359,6 +360,9 @@ def run_e2e(spec, work, counters, viol, feats):
                                 w.query_genes,
                                 encoding=w.spec['encoding'])
             counters['e2e_queries_with_marker_interior_shuffled'] = 1
+    if len(w.query_genes) > 256 and all(
+            g.startswith('xq') for g in w.query_genes[:256]):
+        counters['e2e_queries_with_all_markers_beyond_column_255'] = 1
     red = oracles.reduced_model(w)
     tbl = dict(table)
     if w.config['flatten']:
@@ -469,6 +473,13 @@ def gen_cases(tier, seed):
                           'unknown-to-reference-absent-from-query'][i % 8]
         if i % 2 == 0:
             c['e2e_order'] = 'markers-interior-shuffled'
+        if i % 5 == 2:
+            # a query much wider than the reference, every marker beyond
+            # column 255
+            c['n_extra_genes'] = int(rng.integers(280, 420))
+            c['extra_first'] = True
+            c['e2e_order'] = None
+            c['query_order'] = None
         cases.append(c)
     return cases
 
